@@ -124,6 +124,9 @@ where
                 }
             }
             new.header = Some(header);
+        } else {
+            // No header is only a fact about the input if the source did not fail while we looked
+            new.reader.reader.check_io_error()?;
         }
 
         Ok(new)
